@@ -925,3 +925,36 @@ func c17ampEscaped(c *core.Check) {
 	c.Decide(okg, "amp-escaped-before-unescape", key, c.Prog.Rel(repl.Pos()), fmt.Sprintf("'&' is escaped whenever it occurs (guards: %v)", guards),
 		fmt.Sprintf("the escaping of '&' is skipped unless %v: html.UnescapeString also rewrites semicolon-less entities (&lt, &copy, &reg…), so such text in a literal or annotation changes when the dumped IDL is re-parsed", guards))
 }
+
+// ---------------------------------------------------------------------------------------------------------------------
+// C01: Go has no map type whose key is a slice or a map. A Thrift map with a list/set/map key therefore has no Go
+// representation; the only way to keep "whatever is generated compiles" is to refuse such a field. Rule: the function that
+// spells Go container types returns an error for a container-typed key.
+func c01mapKeyRepresentable(c *core.Check) {
+	fd := c.Prog.FuncDecl(golangRel, "Resolver.getContainerTypeName")
+	key := golangRel + ".(Resolver).getContainerTypeName/map-key"
+	if fd == nil {
+		c.Unknown("anchor", golangRel+".(Resolver).getContainerTypeName", "", "missing")
+		return
+	}
+	info := c.Prog.Pkg(golangRel).TypesInfo
+	rejects := false
+	ast.Inspect(fd.Body, func(n ast.Node) bool {
+		is, ok := n.(*ast.IfStmt)
+		if !ok {
+			return true
+		}
+		t := rules.ExprString(is.Cond)
+		if !strings.Contains(t, "KeyType") || !(strings.Contains(t, "IsContainerType") || strings.Contains(t, "Category_List") || strings.Contains(t, "Category_Map") || strings.Contains(t, "Category_Set") || strings.Contains(t, "IsList") || strings.Contains(t, "IsMap") || strings.Contains(t, "IsSet")) {
+			return true
+		}
+		for _, s := range is.Body.List {
+			if rs, ok := s.(*ast.ReturnStmt); ok && len(rs.Results) > 0 && !rules.IsNil(info, rs.Results[len(rs.Results)-1]) {
+				rejects = true
+			}
+		}
+		return true
+	})
+	c.Decide(rejects, "map-key-representable", key, c.Prog.Rel(fd.Pos()), "a container-typed map key is refused with an error",
+		"a map whose key type is a list, set or map is spelled map[[]T]V / map[map[K]V]W, which is not a Go type: thriftgo exits 0 and the generated package does not compile (with with_field_mask it does not even parse)")
+}
